@@ -143,13 +143,20 @@ func errHandled(g *eng.Graph, call *ast.CallExpr, failOK func(*eng.GNode) bool) 
 		return false
 	}
 	overwrites := func(n *eng.GNode) bool {
-		if n == node || n.Node == nil {
+		if n == node {
+			return true // reached again through a loop: the next iteration overwrites the error
+		}
+		if n.Node == nil {
 			return false
 		}
 		switch st := n.Node.(type) {
 		case *ast.AssignStmt:
-			for _, l := range st.Lhs {
+			for i, l := range st.Lhs {
 				if eng.SelObj(info, l) == errVar {
+					// wrapping the error (err = wrap(err, ...)) keeps it
+					if len(st.Lhs) == len(st.Rhs) && eng.UsesObj(info, st.Rhs[i], errVar, false) {
+						continue
+					}
 					return true
 				}
 			}
